@@ -61,6 +61,16 @@ func (e *PEnv) Val(v ssa.Value) ssa.Value {
 	return v
 }
 
+// KnownNil reports whether v is nil on the current path: the nil constant, or
+// a value the path has compared with nil and found equal.
+func (e *PEnv) KnownNil(v ssa.Value) bool {
+	v = e.Val(v)
+	if c, ok := v.(*ssa.Const); ok {
+		return c.IsNil()
+	}
+	return e.Facts["eq:"+vid(v)+":nil"]
+}
+
 func vid(v ssa.Value) string {
 	if c, ok := v.(*ssa.Const); ok {
 		if c.IsNil() {
